@@ -3,7 +3,7 @@ import ast
 
 from ..core import AnalysisError, dotted, walk_no_nested, FuncTypes
 from ..cfg import CFG
-from ..util import calls_in, local_defs, depends_on, const_val, names_in, if_chain
+from ..util import last_attr, calls_in, local_defs, depends_on, const_val, names_in, if_chain
 from .. import mergefacts as mf
 from .. import facts
 
@@ -311,6 +311,8 @@ def split_addrange_algebra(ctx, rule):
 
 
 def run(ctx):
+    ctx.rule('R09.11', 'the local and remote diff arguments of every decision-builder call are the two sides\' own diffs (mirror images of each other); one expression for both only where the insert aligner established equality', floor=40)
+    ctx.rule('R09.12', 'merge_notebooks returns the notebook apply_decisions built from the returned decisions, unmodified (the pair stays consistent)', floor=1)
     ctx.rule('R09.8', 'entries re-sorted by key alone keep their input order at equal keys: the sorted list is appended to entry by entry (stable sort), or the sort key breaks ties explicitly', floor=2)
     ctx.rule('R09.9', 'the public merge producers never conclude "this side is unchanged" from Python equality of the documents (True == 1 == 1.0)', floor=3)
     ctx.rule('R09.10', 'the mergers only add decisions: the decision list is replaced/filtered nowhere in merging/generic.py (strategies replace only conflicted ones, R05.2)', floor=5)
@@ -323,8 +325,12 @@ def run(ctx):
     from ..sorts import key_sort_sites, key_function_kind, single_pass_construction
     repo = ctx.repo
     sites = key_sort_sites(repo)
-    if len(sites) < 2:
-        raise AnalysisError('key sorts of combine_patches / flatten_list_of_string_diff not found')
+    from ..sorts import SITES as _SORT_SITES
+    for sfid in _SORT_SITES:
+        if not any(f == sfid for f, *_ in sites):
+            ctx.inst('R09.8', sfid, '<no sort of the entries by key>', False,
+                     'the entries this function returns are no longer ordered by key: apply_decisions concatenates the diffs of a decision local-first '
+                     '(local_then_remote) and relies on this sort to restore key order before patch_list/patch_string walks them', repo.func(sfid))
     for fid, fn, call, lst, keyfn in sites:
         kind = key_function_kind(keyfn)
         if kind == 'tie-broken':
@@ -382,3 +388,53 @@ def run(ctx):
                  'reproduce that side', bad if bad is not None else fn)
     if n10 < 5:
         raise AnalysisError('fewer merger functions than expected handle a decision builder')
+
+    # ---------------------------------------------------------------- R09.11
+    import copy as _copy
+    from .c05 import _PairSigma
+    BUILDER = {'onesided', 'agreement', 'conflict', 'local', 'remote', 'base', 'custom', 'local_then_remote', 'remote_then_local', 'tryresolve', 'similar_insert'}
+    SAME_OK = {mf.GEN + ':_split_addrange': 'overlap of two inserts: equality of the items was established by diffing local against remote'}
+    for fid, fn in sorted(repo.functions.items()):
+        if not fid.startswith('nbdime.merging.') or '__unused__' in fid or fid.startswith('nbdime.merging.autoresolve'):
+            continue
+        names = {x.id for x in ast.walk(fn) if isinstance(x, ast.Name)} | {a.arg for a in fn.args.args}
+        for c in calls_in(fn, nested=False):
+            if not (isinstance(c.func, ast.Attribute) and c.func.attr in BUILDER and dotted(c.func.value) in ('decisions', 'self') and len(c.args) >= 3):
+                continue
+            L, R = c.args[1], c.args[2]
+            same = ast.dump(L) == ast.dump(R)
+            img = _PairSigma(names).visit(_copy.deepcopy(L))
+            mirrored = ast.dump(img) == ast.dump(R) and not same
+            onesided_literal = c.func.attr == 'onesided' and (const_val(L) is None or const_val(R) is None or
+                                                              (isinstance(L, ast.List) and not L.elts) or (isinstance(R, ast.List) and not R.elts))
+            similar = c.func.attr == 'similar_insert'
+            if same:
+                ok = fid in SAME_OK
+                why = SAME_OK.get(fid, 'one expression is passed as both the local and the remote diff: a change only one side made is recorded as made by '
+                                  'both, and choosing the other side no longer reproduces it')
+            elif mirrored or onesided_literal or similar:
+                ok, why = True, 'each side\'s own diff'
+            else:
+                ok, why = False, 'the remote argument is not the mirror image of the local one (%s vs %s)' % (ast.unparse(L)[:40], ast.unparse(R)[:40])
+            ctx.inst('R09.11', fid, repo.norm(c)[:120], ok, why, c)
+    # ---------------------------------------------------------------- R09.12
+    mn = repo.func(mf.MNB + ':merge_notebooks')
+    mdefs = local_defs(mn)
+    ad = [(nm, st) for nm, ds in mdefs.items() for v, k, st in ds if isinstance(v, ast.Call) and last_attr(v) == 'apply_decisions']
+    if not ad:
+        raise AnalysisError('merge_notebooks: apply_decisions call not found')
+    mname = ad[0][0]
+    muts = []
+    for n in walk_no_nested(mn):
+        tg = n.targets if isinstance(n, (ast.Assign, ast.Delete)) else ([n.target] if isinstance(n, ast.AugAssign) else [])
+        for t in tg:
+            if isinstance(t, (ast.Subscript, ast.Attribute)) and dotted(t.value) == mname:
+                muts.append(n)
+        if isinstance(n, ast.Call) and isinstance(n.func, ast.Attribute) and dotted(n.func.value) == mname and n.func.attr in ('update', 'pop', 'setdefault', 'clear', '__setitem__'):
+            muts.append(n)
+    rebinds = [st for v, k, st in mdefs.get(mname, []) if not (isinstance(v, ast.Call) and last_attr(v) == 'apply_decisions')]
+    ok = not muts and not rebinds
+    ctx.inst('R09.12', mf.MNB + ':merge_notebooks', '%s = apply_decisions(...); later stores: %d, rebindings: %d' % (mname, len(muts), len(rebinds)), ok,
+             'what is returned is exactly what the returned decisions produce' if ok else
+             'the merged notebook is edited after the decisions were applied (%s): applying the returned decisions to base no longer gives the returned notebook' % (
+                 repo.norm((muts or rebinds)[0])[:80]), (muts or rebinds)[0] if (muts or rebinds) else mn)
